@@ -471,7 +471,9 @@ carquet_status_t carquet_column_index_serialize(
     }
 
     thrift_write_struct_end(&enc);
-    return CARQUET_OK;
+
+    /* A failed append is latched in the encoder: the output is incomplete */
+    return enc.status;
 }
 
 /**
@@ -522,7 +524,9 @@ carquet_status_t carquet_offset_index_serialize(
     }
 
     thrift_write_struct_end(&enc);
-    return CARQUET_OK;
+
+    /* A failed append is latched in the encoder: the output is incomplete */
+    return enc.status;
 }
 
 /* ============================================================================
